@@ -133,9 +133,9 @@ func c02Scenarios(tier string) []*Scenario {
 		for _, bo := range []int{0, 1} {
 			pc := PC{Name: "a", Restart: pol, Backoff: bo}
 			sc := &Scenario{
-				ID:   fmt.Sprintf("c02-slow-sibling-%s-bo%d", pol, bo),
-				YAML: projectYAML(nil, pc, PC{Name: "s", Lines: []string{"shutdown:", "  timeout_seconds: 3"}}),
-				Procs: map[string]*ProcScript{"a": {Launches: append(exits(1), []Action{})}, "s": {OnTerm: "ignore"}},
+				ID:         fmt.Sprintf("c02-slow-sibling-%s-bo%d", pol, bo),
+				YAML:       projectYAML(nil, pc, PC{Name: "s", Lines: []string{"shutdown:", "  timeout_seconds: 3"}}),
+				Procs:      map[string]*ProcScript{"a": {Launches: append(exits(1), []Action{})}, "s": {OnTerm: "ignore"}},
 				K:          k,
 				TickBudget: 3,
 				MapSites:   []string{"ShutDownProject"},
